@@ -675,10 +675,16 @@ for _n in ("lower", "upper", "strip", "lstrip", "rstrip", "title", "format", "re
     BUILTINS["str." + _n] = _mk_str_fn(_n)
 
 
-@builtin("str.split", "str.rsplit", "str.splitlines", "bytes.split")
-def b_str_split(ex, state, args, kwargs, sv):
-    from . import natives
-    return natives.str_split(ex, state, sv, args)
+def _mk_split(kind):
+    def f(ex, state, args, kwargs, sv):
+        from . import natives
+        return natives.str_split(ex, state, sv, args, kind)
+    return f
+
+
+for _k in ("split", "rsplit", "splitlines"):
+    BUILTINS["str." + _k] = _mk_split(_k)
+BUILTINS["bytes.split"] = _mk_split("split")
 
 
 @builtin("str.isdigit", "str.isalnum", "str.isalpha", "str.isspace")
